@@ -149,6 +149,21 @@ fn lv_bytes<T: Pod, L: spl_list_view::PodLength>(offset: usize, bytes: &[u8]) ->
     let wl = std::mem::size_of::<L>();
     let pad = if al <= 1 || wl % al == 0 { 0 } else { al - wl % al };
     let hdr = wl + pad;
+    {
+        // `init` is the third way to open a buffer (mutably, resetting the count): it accepts exactly the layouts the other two
+        // accept — long enough for the header, data start aligned, a whole number of elements — whatever count is stored
+        let mut a2 = Box::new(Arena::<{ 1 << 17 }>([0u8; 1 << 17]));
+        a2.0[offset..offset + n].copy_from_slice(bytes);
+        let well_formed = n >= hdr && (lo + hdr) % al.max(1) == 0 && (if sz == 0 { n == hdr } else { (n - hdr) % sz == 0 });
+        match guarded(|| ListView::<T, L>::init(&mut a2.0[offset..offset + n]).map(|v| (v.len(), v.capacity()))) {
+            None => err = Some("init panicked".into()),
+            Some(Ok((l, c))) => {
+                if !well_formed { err = Some("init accepted a buffer that read-only and mutable opening reject for its layout (too short, misaligned or not a whole number of elements)".into()); }
+                else if l != 0 || c != (if sz == 0 { 0 } else { (n - hdr) / sz }) { err = Some("init did not yield an empty list of capacity (buffer - header) / element size".into()); }
+            }
+            Some(Err(_)) => if well_formed { err = Some("init rejected a buffer in the documented layout".into()); },
+        }
+    }
     if ro_s.starts_with("ok") {
         let cap: usize = ro_s.split("cap=").nth(1).unwrap().split(' ').next().unwrap().parse().unwrap();
         let expect_cap = if sz == 0 { 0 } else { (n - hdr) / sz };
@@ -242,6 +257,15 @@ fn hist_op<T: Pod, L: spl_list_view::PodLength>(h: &mut Hist, op: &[&str]) -> (S
                 if u128::from_le_bytes(le) != l { err = Some(format!("the opened list has {l} elements but its prefix bytes encode {}", u128::from_le_bytes(le))); }
             }
         }
+    }
+    if (op[0] == "used" || op[0] == "alloc") && h.shadow.is_some() {
+        // "a buffer of the size reported for n elements has capacity exactly n": the sizes the view reports for itself are
+        // header + count * element size (used) and header + capacity * element size = the buffer it lives in (allocated)
+        let al = std::mem::align_of::<T>();
+        let pad = if al <= 1 || wl % al == 0 { 0 } else { al - wl % al };
+        let count = if op[0] == "used" { h.shadow.as_ref().unwrap().len() } else { h.cap };
+        let exp = format!("ok {}", wl + pad + count * sz);
+        if s != exp { err = Some(format!("bytes_{} reports `{}`, the layout says `{}`", if op[0] == "used" { "used" } else { "allocated" }, s, exp)); }
     }
     match (op[0], &mut h.shadow) {
         ("init", sh) => {
